@@ -33,6 +33,7 @@ point is fingerprinted again later: it must not change unless its own destinatio
 """
 import json
 import os
+from concurrent.futures import ThreadPoolExecutor
 
 S = "Histogram"
 U = 1 << 20
@@ -101,7 +102,7 @@ def expo_configs(tier, seed):
             out.append(dict(c, steps=4, small=False))
         # both temporalities and a deeper run for the configurations where re-scaling is richest
         for c in full:
-            if c["maxsize"] in (2, 3) and c["variant"] != "B" and c["maxscale"] in (20, 0):
+            if (c["maxsize"], c["variant"], c["maxscale"]) in ((2, "A", 20), (3, "C", 20), (2, "C", 0), (3, "A", 0)):
                 out.append(dict(c, cum=not c["cum"], steps=5, small=True))
         return out
     # quick: the underflow configuration always, plus a seeded sample
@@ -187,185 +188,225 @@ def run(ctx):
     probe = json.loads(ctx.run([binp, "probe"]).stdout)
     d1 = bool(probe["d1_count_before_underflow_return"])
     ctx.extra["tree_has_D1_count_before_underflow_return"] = d1
-    diff_trace = os.path.join(ctx.work, "diff.ndjson")
-    open(diff_trace, "w").close()
-    diff_src = []          # (first line, last line, source description)
     zero_cov = None
     refdiffs = 0
     edges_total = 0
+    par = max(2, min(6, (os.cpu_count() or 4) // 3))
+    if os.environ.get("VERIF_TLC_WORKERS"):
+        par = max(1, min(par, int(os.environ["VERIF_TLC_WORKERS"])))
+    ctx.extra["parallel_jobs"] = par
 
-    def absorb_diff(path, src):
-        nonlocal diff_src
-        txt = open(path).read()
-        if not txt:
-            return
-        start = sum(1 for _ in open(diff_trace)) + 1
-        with open(diff_trace, "a") as f:
-            f.write(txt)
-        diff_src.append((start, start + txt.count("\n") - 1, src))
-
-    # ---------------------------------------------------------------- spec -> code, exponential
-    for c in expo_configs(ctx.tier, ctx.seed):
-        vals = expo_vals(c["maxscale"], c["variant"], c["small"])
-        name = "expo-n%d-s%d-%s-%s-d%d%s%s" % (c["maxsize"], c["maxscale"], c["variant"], "cum" if c["cum"] else "delta", c["steps"],
-                                               "-nomm" if c["nominmax"] else "", "-nosum" if c["nosum"] else "")
-        d = {"VALS": tla_vals(vals, ("sg", "b", "alt", "r", "k")), "MAXSIZE": c["maxsize"], "MAXSCALE": c["maxscale"],
-             "CUMULATIVE": "TRUE" if c["cum"] else "FALSE", "FIXD1": "FALSE" if d1 else "TRUE", "MAXSTEPS": c["steps"],
-             "NOSUM": tla_bool(c["nosum"]), "NOMINMAX": tla_bool(c["nominmax"]), "VARIANT": "code"}
-        r = ctx.tlc(S, "MC_ExpoHistogram", "MC_ExpoHistogram.cfg", defines=d, want_edges=True, name=name, timeout=1800,
-                    coverage=True)
-        acts = set(r["zero_cov"])
-        zero_cov = acts if zero_cov is None else (zero_cov & acts)
-        reps = [0, 1] if thorough else [ctx.seed % 2]
-        if c["maxscale"] <= 0:
-            reps = reps + [2]
+    # ---------------------------------------------------------------- spec -> code (jobs run in parallel, one TLC worker each)
+    def explore(job):
+        """TLC explores one configuration and prints its edges; the harness replays them. Returns everything the
+        main thread accounts for (nothing of ctx is touched here except through ctx.tlc(count=False) / ctx.run)."""
+        kind, c = job
+        runs = []
+        if kind == "expo":
+            vals = expo_vals(c["maxscale"], c["variant"], c["small"])
+            name = "expo-n%d-s%d-%s-%s-d%d%s%s" % (c["maxsize"], c["maxscale"], c["variant"], "cum" if c["cum"] else "delta", c["steps"],
+                                                   "-nomm" if c["nominmax"] else "", "-nosum" if c["nosum"] else "")
+            d = {"VALS": tla_vals(vals, ("sg", "b", "alt", "r", "k")), "MAXSIZE": c["maxsize"], "MAXSCALE": c["maxscale"],
+                 "CUMULATIVE": "TRUE" if c["cum"] else "FALSE", "FIXD1": "FALSE" if d1 else "TRUE", "MAXSTEPS": c["steps"],
+                 "NOSUM": tla_bool(c["nosum"]), "NOMINMAX": tla_bool(c["nominmax"]), "VARIANT": "code"}
+            r = ctx.tlc(S, "MC_ExpoHistogram", "MC_ExpoHistogram.cfg", defines=d, want_edges=True, name=name, timeout=3000,
+                        coverage=True, count=False)
+            reps = [0, 1] if thorough else [ctx.seed % 2]
+            if c["maxscale"] <= 0:
+                reps = reps + [2]
+            cfgb = {"kind": "expo", "maxsize": c["maxsize"], "maxscale": c["maxscale"], "cum": c["cum"], "quant": False, "bounds": [],
+                    "nosum": c["nosum"], "nominmax": c["nominmax"]}
+            hvals = vals
+        else:
+            nb = len(c["bounds"])
+            vals = [{"r": r_, "p": r_, "k": r_ - (nb + 1)} for r_ in c["ranks"]]
+            name = "expl-%s-%s%s%s" % (c["name"], "cum" if c["cum"] else "delta", "-nomm" if c["nominmax"] else "",
+                                       "-nosum" if c["nosum"] else "")
+            d = {"BOUNDS": "<<" + ", ".join(str(b) for b in c["bounds"]) + ">>", "VALS": tla_vals(vals, ("r", "p", "k")),
+                 "CUMULATIVE": "TRUE" if c["cum"] else "FALSE", "MAXSTEPS": c["steps"],
+                 "NOSUM": tla_bool(c["nosum"]), "NOMINMAX": tla_bool(c["nominmax"]), "VARIANT": "code"}
+            r = ctx.tlc(S, "MC_Histogram", "MC_Histogram.cfg", defines=d, want_edges=True, name=name, timeout=3000, count=False)
+            reps = c["reps"]
+            cfgb = {"kind": "expl", "maxsize": 1, "maxscale": 0, "cum": c["cum"], "bounds": c["bounds"],
+                    "nosum": c["nosum"], "nominmax": c["nominmax"]}
+            hvals = [{"r": v["r"], "k": v["k"]} for v in vals]
         for rep in reps:
             out = os.path.join(ctx.work, "replay-%s-%d.json" % (name, rep))
             tr = os.path.join(ctx.work, "diff-%s-%d.ndjson" % (name, rep))
-            cfgj = {"kind": "expo", "maxsize": c["maxsize"], "maxscale": c["maxscale"], "cum": c["cum"], "quant": False, "bounds": [],
-                    "nosum": c["nosum"], "nominmax": c["nominmax"]}
-            ctx.run([binp, "replay", "-kind", "expo", "-edges", r["edges_file"], "-cfg", json.dumps(cfgj), "-vals", json.dumps(vals),
-                     "-rep", str(rep), "-trace", tr, "-out", out], timeout=1800)
-            res = json.load(open(out))
-            edges_total += res["executed"]
-            ctx.traces_validated += res["executed"]
-            ctx.evaluations += res["evaluations"]
-            merge_counters(ctx, res, "replay_")
-            ctx.add_samples(res["samples"][:1], cap=3)
-            for m in res["mismatches"]:
-                if m["kind"] == "panic":
-                    ctx.violation({"dir": "replay", "sub": "expo", "why": "panic"}, replay=dict(m, cfg=cfgj, rep=rep))
-            refdiffs += sum(1 for m in res["mismatches"] if m["kind"] == "refdiff")
-            for s in res["inconclusive"]:
-                ctx.note_inconclusive(s)
-            absorb_diff(tr, {"cfg": cfgj, "rep": rep, "tlc": name})
+            cfgj = dict(cfgb, quant=(rep <= 4)) if kind == "expl" else cfgb
+            ctx.run([binp, "replay", "-kind", kind, "-edges", r["edges_file"], "-cfg", json.dumps(cfgj), "-vals", json.dumps(hvals),
+                     "-rep", str(rep), "-trace", tr, "-out", out], timeout=3000)
+            runs.append((rep, cfgj, json.load(open(out)), tr))
+        if thorough:
+            os.remove(r["edges_file"])  # (tlc.out of the run keeps the EDGE lines)
+        return kind, name, r, runs
+
+    def cost(job):
+        kind, c = job
+        return (len(expo_vals(c["maxscale"], c["variant"], c["small"])) + 1 if kind == "expo" else len(c["ranks"]) + 1) ** c["steps"] \
+            * (20 if kind == "expo" else 1)
+
+    jobs = [("expo", c) for c in expo_configs(ctx.tier, ctx.seed)] + [("expl", c) for c in expl_configs(ctx.tier)]
+    jobs.sort(key=cost, reverse=True)      # longest first; the order of the results is that of the jobs
+    diffs = []                             # (trace file of differing cases, source description)
+    with ThreadPoolExecutor(par) as ex:
+        for kind, name, r, runs in ex.map(explore, jobs):
+            ctx.states += r["distinct"]
+            ctx.transitions += r["generated"]
+            if kind == "expo":
+                acts = set(r["zero_cov"])
+                zero_cov = acts if zero_cov is None else (zero_cov & acts)
+            for rep, cfgj, res, tr in runs:
+                edges_total += res["executed"]
+                ctx.traces_validated += res["executed"]
+                ctx.evaluations += res["evaluations"]
+                merge_counters(ctx, res, "replay_")
+                if kind == "expo":
+                    ctx.add_samples(res["samples"][:1], cap=3)
+                else:
+                    ctx.add_samples(res["samples"][1:2], cap=4)
+                for m in res["mismatches"]:
+                    if m["kind"] == "panic":
+                        ctx.violation({"dir": "replay", "sub": kind, "why": "panic"}, replay=dict(m, cfg=cfgj, rep=rep))
+                refdiffs += res["counters"].get("replayed_cases_differing_from_reference", 0)
+                for s in res["inconclusive"]:
+                    ctx.note_inconclusive(s)
+                diffs.append((tr, {"cfg": cfgj, "rep": rep, "tlc": name}))
     ctx.extra["expo_actions_never_taken_in_any_config"] = sorted(zero_cov or [])
     if zero_cov:
         ctx.note_inconclusive("vacuity: ExpoHistogram actions never enabled in any explored configuration: %s" % sorted(zero_cov))
-
-    # model-level demonstrations on the underflow configuration: the statement fails on the
-    # transcribed algorithm with D1 (TLC finds it) and holds once the accounting is moved
-    vals = expo_vals(20, "A", False)
-    d = {"VALS": tla_vals(vals, ("sg", "b", "alt", "r", "k")), "MAXSIZE": 1, "MAXSCALE": 20, "CUMULATIVE": "TRUE", "MAXSTEPS": 3,
-         "NOSUM": "FALSE", "NOMINMAX": "FALSE", "VARIANT": "code"}
-    r = ctx.tlc(S, "MC_ExpoHistogram", "MC_ExpoContract.cfg", defines=dict(d, FIXD1="FALSE"), name="nodeviation-D1",
-                must_pass=False, count=False)
-    ctx.extra["tlc_finds_D1_on_the_model"] = r["violated"]
-    if r["violated"] != "ContractInv":
-        ctx.note_inconclusive("NoDeviation run did not reproduce D1 on the model (got %r): %s" % (r["violated"], r["out"]))
-    ctx.tlc(S, "MC_ExpoHistogram", "MC_ExpoContract.cfg", defines=dict(d, FIXD1="TRUE"), name="contract-with-fix-D1", count=False)
-
-    # ---------------------------------------------------------------- spec -> code, explicit
-    for c in expl_configs(ctx.tier):
-        nb = len(c["bounds"])
-        vals = [{"r": r_, "p": r_, "k": r_ - (nb + 1)} for r_ in c["ranks"]]
-        name = "expl-%s-%s%s%s" % (c["name"], "cum" if c["cum"] else "delta", "-nomm" if c["nominmax"] else "", "-nosum" if c["nosum"] else "")
-        d = {"BOUNDS": "<<" + ", ".join(str(b) for b in c["bounds"]) + ">>", "VALS": tla_vals(vals, ("r", "p", "k")),
-             "CUMULATIVE": "TRUE" if c["cum"] else "FALSE", "MAXSTEPS": c["steps"],
-             "NOSUM": tla_bool(c["nosum"]), "NOMINMAX": tla_bool(c["nominmax"]), "VARIANT": "code"}
-        r = ctx.tlc(S, "MC_Histogram", "MC_Histogram.cfg", defines=d, want_edges=True, name=name, timeout=1800)
-        for rep in c["reps"]:
-            out = os.path.join(ctx.work, "replay-%s-%d.json" % (name, rep))
-            tr = os.path.join(ctx.work, "diff-%s-%d.ndjson" % (name, rep))
-            cfgj = {"kind": "expl", "maxsize": 1, "maxscale": 0, "cum": c["cum"], "quant": rep <= 4, "bounds": c["bounds"],
-                    "nosum": c["nosum"], "nominmax": c["nominmax"]}
-            ctx.run([binp, "replay", "-kind", "expl", "-edges", r["edges_file"], "-cfg", json.dumps(cfgj),
-                     "-vals", json.dumps([{"r": v["r"], "k": v["k"]} for v in vals]), "-rep", str(rep), "-trace", tr, "-out", out],
-                    timeout=1800)
-            res = json.load(open(out))
-            edges_total += res["executed"]
-            ctx.traces_validated += res["executed"]
-            ctx.evaluations += res["evaluations"]
-            merge_counters(ctx, res, "replay_")
-            ctx.add_samples(res["samples"][1:2], cap=4)
-            for m in res["mismatches"]:
-                if m["kind"] == "panic":
-                    ctx.violation({"dir": "replay", "sub": "expl", "why": "panic"}, replay=dict(m, cfg=cfgj, rep=rep))
-            refdiffs += sum(1 for m in res["mismatches"] if m["kind"] == "refdiff")
-            for s in res["inconclusive"]:
-                ctx.note_inconclusive(s)
-            absorb_diff(tr, {"cfg": cfgj, "rep": rep, "tlc": name})
     ctx.extra["edges_replayed"] = edges_total
     ctx.extra["replayed_edges_whose_report_depends_on_the_destination"] = ctx.extra.get("counters", {}).get(
         "replay_edges_whose_report_depends_on_the_destination", 0)
     ctx.extra["replayed_points_differing_from_reference"] = refdiffs
 
-    # replayed cases whose data point differs from the reference point: the contract decides
-    if diff_src:
-        viols, _ = ctx.validate_trace(S, "Trace_Hist", "Trace_Hist.cfg", diff_trace, timeout=3600, name="trace-replay-diffs")
-        explained = set()
-        for v in viols:
-            src = next((s for a, b, s in diff_src if a <= v["line"] <= b), None)
-            explained.add((json.dumps(src, sort_keys=True), v["sc"]))
-            report_viols(ctx, [v], diff_trace, "replay", src)
-        ctx.extra["replay_diffs_violating_contract"] = len(explained)
-        ctx.extra["replay_diffs_admissible_but_not_reference"] = max(0, refdiffs - len(explained))
-
-    # ---------------------------------------------------------------- output path: the invariant is sharp
-    # TLC must find every named faulty output path of HistOutput.tla (model-level demonstrations,
-    # never a verdict): counts copied into the destination's slice without re-slicing, an empty sign
-    # left as found, unset sum / extrema left as found, the accumulator's own memory handed out by a
-    # cumulative stream, boundaries / scale of the previous occupant kept
+    # ---------------------------------------------------------------- model-level demonstrations (never a verdict)
+    # (a) the statement fails on the transcribed algorithm with D1 (TLC finds it) and holds once the accounting is moved
+    # (b) TLC finds every named faulty output path of HistOutput.tla: counts copied into the destination's slice without
+    #     re-slicing, an empty sign left as found, unset sum / extrema left as found, the accumulator's own memory handed out
+    #     by a cumulative stream, boundaries / scale of the previous occupant kept
+    vals = expo_vals(20, "A", False)
+    d = {"VALS": tla_vals(vals, ("sg", "b", "alt", "r", "k")), "MAXSIZE": 1, "MAXSCALE": 20, "CUMULATIVE": "TRUE", "MAXSTEPS": 3,
+         "NOSUM": "FALSE", "NOMINMAX": "FALSE", "VARIANT": "code"}
     evals = expo_vals(0, "B", False)
     ed = {"VALS": tla_vals(evals, ("sg", "b", "alt", "r", "k")), "MAXSIZE": 2, "MAXSCALE": 0, "CUMULATIVE": "FALSE", "FIXD1": "TRUE",
           "MAXSTEPS": 2}
     hvals = [{"r": r_, "p": r_, "k": r_ - 3} for r_ in range(1, 6)]
     hd = {"BOUNDS": "<<2, 4>>", "VALS": tla_vals(hvals, ("r", "p", "k")), "CUMULATIVE": "TRUE", "MAXSTEPS": 2}
-    demos = [("MC_Histogram", "MC_HistOutput.cfg", hd, "copy_noreslice", False), ("MC_ExpoHistogram", "MC_ExpoOutput.cfg", ed, "skip_empty_sign", False),
-             ("MC_Histogram", "MC_HistOutput.cfg", hd, "keep_unset", True), ("MC_Histogram", "MC_HistOutput.cfg", hd, "lend_cumulative", False),
-             ("MC_ExpoHistogram", "MC_ExpoOutput.cfg", ed, "scale_if_buckets", False)]
+    faulty = [("MC_Histogram", "MC_HistOutput.cfg", hd, "copy_noreslice", False), ("MC_ExpoHistogram", "MC_ExpoOutput.cfg", ed, "skip_empty_sign", False),
+              ("MC_Histogram", "MC_HistOutput.cfg", hd, "keep_unset", True), ("MC_Histogram", "MC_HistOutput.cfg", hd, "lend_cumulative", False),
+              ("MC_ExpoHistogram", "MC_ExpoOutput.cfg", ed, "scale_if_buckets", False)]
     if thorough:
-        demos += [("MC_ExpoHistogram", "MC_ExpoOutput.cfg", ed, "keep_unset", True), ("MC_ExpoHistogram", "MC_ExpoOutput.cfg", ed, "lend_buckets", False),
-                  ("MC_Histogram", "MC_HistOutput.cfg", hd, "reuse_bounds", False)]
+        faulty += [("MC_ExpoHistogram", "MC_ExpoOutput.cfg", ed, "keep_unset", True), ("MC_ExpoHistogram", "MC_ExpoOutput.cfg", ed, "lend_buckets", False),
+                   ("MC_Histogram", "MC_HistOutput.cfg", hd, "reuse_bounds", False)]
+
+    def demo(job):
+        if job[0] == "d1":
+            return job, ctx.tlc(S, "MC_ExpoHistogram", "MC_ExpoContract.cfg", defines=dict(d, FIXD1="FALSE"), name="nodeviation-D1",
+                                must_pass=False, count=False)
+        if job[0] == "d1fixed":
+            return job, ctx.tlc(S, "MC_ExpoHistogram", "MC_ExpoContract.cfg", defines=dict(d, FIXD1="TRUE"), name="contract-with-fix-D1",
+                                count=False)
+        _, mod, cfg, dd, variant, flags = job
+        return job, ctx.tlc(S, mod, cfg, defines=dict(dd, VARIANT=variant, NOSUM=tla_bool(flags), NOMINMAX=tla_bool(flags)),
+                            name="faulty-output-%s-%s" % (variant, "expo" if "Expo" in mod else "expl"), must_pass=False, count=False)
+
     found = {}
-    for mod, cfg, dd, variant, flags in demos:
-        r = ctx.tlc(S, mod, cfg, defines=dict(dd, VARIANT=variant, NOSUM=tla_bool(flags), NOMINMAX=tla_bool(flags)),
-                    name="faulty-output-%s-%s" % (variant, "expo" if "Expo" in mod else "expl"), must_pass=False, count=False)
-        found[variant + ("/expo" if "Expo" in mod else "/expl")] = r["violated"]
-        if r["violated"] != "ReportIndep":
-            ctx.note_inconclusive("TLC did not find the faulty output path %s on the model (got %r): %s" % (variant, r["violated"], r["out"]))
+    with ThreadPoolExecutor(par) as ex:
+        for job, r in ex.map(demo, [("d1",), ("d1fixed",)] + [("faulty",) + f for f in faulty]):
+            if job[0] == "d1":
+                ctx.extra["tlc_finds_D1_on_the_model"] = r["violated"]
+                if r["violated"] != "ContractInv":
+                    ctx.note_inconclusive("NoDeviation run did not reproduce D1 on the model (got %r): %s" % (r["violated"], r["out"]))
+            elif job[0] == "faulty":
+                variant = job[4] + ("/expo" if "Expo" in job[1] else "/expl")
+                found[variant] = r["violated"]
+                if r["violated"] != "ReportIndep":
+                    ctx.note_inconclusive("TLC did not find the faulty output path %s on the model (got %r): %s" % (variant, r["violated"], r["out"]))
     ctx.extra["tlc_finds_faulty_output_paths_on_the_model"] = found
 
-    # ---------------------------------------------------------------- code -> spec: collection histories, re-used destinations
+    # ---------------------------------------------------------------- code -> spec, and the verdict on the replayed differences
+    # everything the real code reported is judged by TLC (Trace_Hist.tla); trace files are validated in parallel:
+    #  * batches of replayed cases that differ from the reference point (or whose report changed later)
+    #  * collection histories with re-used destinations (c07 worlds)
+    #  * single-stream random scenarios (c07 random)
+    vjobs = []
+    batch, lines_in_batch = None, 0
+    for tr, src in diffs:
+        txt = open(tr).read()
+        if not txt:
+            continue
+        n_ = txt.count("\n")
+        if batch is None or lines_in_batch + n_ > 40000:
+            batch = {"kind": "replay", "path": os.path.join(ctx.work, "diffbatch-%d.ndjson" % len(vjobs)), "src": []}
+            open(batch["path"], "w").close()
+            vjobs.append(batch)
+            lines_in_batch = 0
+        with open(batch["path"], "a") as f:
+            f.write(txt)
+        batch["src"].append((lines_in_batch + 1, lines_in_batch + n_, src))
+        lines_in_batch += n_
     nw, batches = (500, 6) if thorough else (300, 1)
-    wlines = 0
     for bt in range(batches):
-        wtrace = os.path.join(ctx.work, "worlds-%d.ndjson" % bt)
-        wres = os.path.join(ctx.work, "worlds-%d.json" % bt)
-        wdesc = os.path.join(ctx.work, "worlds-desc-%d.json" % bt)
-        ctx.run([binp, "worlds", "-n", str(nw), "-batch", str(bt), "-trace", wtrace, "-res", wres, "-worlds", wdesc], timeout=1800)
-        res = json.load(open(wres))
-        for m in res["mismatches"]:
-            ctx.violation({"dir": "worlds", "sub": "world", "why": "panic"}, replay=m)
-        for s_ in res["inconclusive"]:
-            ctx.note_inconclusive(s_)
-        viols, accepted = ctx.validate_trace(S, "Trace_Hist", "Trace_Hist.cfg", wtrace, timeout=3600, name="trace-worlds-%d" % bt)
-        wlines += accepted
-        ctx.traces_validated += res["counters"].get("world_scenarios", 0)
-        ctx.evaluations += res["executed"]
-        res["counters"] = {(k if k.startswith("world_") else "world_" + k): v for k, v in res["counters"].items()}
-        merge_counters(ctx, res, "")
-        if viols:
-            report_viols(ctx, viols, wtrace, "worlds", worlds=json.load(open(wdesc)))
+        vjobs.append({"kind": "worlds", "bt": bt})
+    n = 12000 if thorough else 1500
+    vjobs.append({"kind": "random"})
+
+    def judge(j):
+        if j["kind"] == "worlds":
+            j["path"] = os.path.join(ctx.work, "worlds-%d.ndjson" % j["bt"])
+            j["desc"] = os.path.join(ctx.work, "worlds-desc-%d.json" % j["bt"])
+            resf = os.path.join(ctx.work, "worlds-%d.json" % j["bt"])
+            ctx.run([binp, "worlds", "-n", str(nw), "-batch", str(j["bt"]), "-trace", j["path"], "-res", resf, "-worlds", j["desc"]],
+                    timeout=1800)
+            j["res"] = json.load(open(resf))
+        elif j["kind"] == "random":
+            j["path"] = os.path.join(ctx.work, "trace.ndjson")
+            resf = os.path.join(ctx.work, "random.json")
+            ctx.run([binp, "random", "-n", str(n), "-trace", j["path"], "-res", resf], timeout=1800)
+            j["res"] = json.load(open(resf))
+        j["viols"], j["accepted"] = ctx.validate_trace(S, "Trace_Hist", "Trace_Hist.cfg", j["path"], timeout=3600,
+                                                       name="trace-%s-%d" % (j["kind"], j.get("bt", vjobs.index(j))))
+        return j
+
+    with ThreadPoolExecutor(par) as ex:
+        judged = list(ex.map(judge, vjobs))
+    explained = set()
+    wlines = 0
+    for j in judged:
+        if j["kind"] == "replay":
+            for v in j["viols"]:
+                src = next((s_ for a, b, s_ in j["src"] if a <= v["line"] <= b), None)
+                explained.add((json.dumps(src, sort_keys=True), v["sc"]))
+                report_viols(ctx, [v], j["path"], "replay", src)
+            continue
+        res = j["res"]
+        if j["kind"] == "worlds":
+            for m in res["mismatches"]:
+                ctx.violation({"dir": "worlds", "sub": "world", "why": "panic"}, replay=m)
+            for s_ in res["inconclusive"]:
+                ctx.note_inconclusive(s_)
+            wlines += j["accepted"]
+            ctx.traces_validated += res["counters"].get("world_scenarios", 0)
+            ctx.evaluations += res["executed"]
+            res["counters"] = {(k if k.startswith("world_") else "world_" + k): v for k, v in res["counters"].items()}
+            merge_counters(ctx, res, "")
+            if j["viols"]:
+                report_viols(ctx, j["viols"], j["path"], "worlds", worlds=json.load(open(j["desc"])))
+        else:
+            for m in res["mismatches"]:
+                ctx.violation({"dir": "random", "sub": (m.get("case") or {}).get("sub"), "why": "panic"}, replay=m)
+            ctx.traces_validated += n
+            ctx.evaluations += res["executed"]
+            merge_counters(ctx, res, "random_")
+            ctx.extra["random_scenarios"] = n
+            ctx.extra["trace_lines_validated"] = j["accepted"]
+            ctx.add_samples(res["samples"][:1] + res["samples"][2:3])
+            report_viols(ctx, j["viols"], j["path"], "random")
+    ctx.extra["replay_diffs_violating_contract"] = len(explained)
+    ctx.extra["replay_diffs_admissible_but_not_reference"] = max(0, refdiffs - len(explained))
     ctx.extra["worlds"] = nw * batches
     ctx.extra["world_trace_lines_validated"] = wlines
-
-    # ---------------------------------------------------------------- code -> spec
-    n = 12000 if thorough else 1500
-    trace = os.path.join(ctx.work, "trace.ndjson")
-    resf = os.path.join(ctx.work, "random.json")
-    ctx.run([binp, "random", "-n", str(n), "-trace", trace, "-res", resf], timeout=1800)
-    res = json.load(open(resf))
-    for m in res["mismatches"]:
-        ctx.violation({"dir": "random", "sub": (m.get("case") or {}).get("sub"), "why": "panic"}, replay=m)
-    viols, accepted = ctx.validate_trace(S, "Trace_Hist", "Trace_Hist.cfg", trace, timeout=3600, name="trace-random")
-    ctx.traces_validated += n
-    ctx.evaluations += res["executed"]
-    merge_counters(ctx, res, "random_")
-    ctx.extra["random_scenarios"] = n
-    ctx.extra["trace_lines_validated"] = accepted
-    ctx.add_samples(res["samples"][:1] + res["samples"][2:3])
-    report_viols(ctx, viols, trace, "random")
     cnt = ctx.extra.get("counters", {})
     for need in ("random_expo_points_downscaled", "random_expo_points_window_full", "random_expo_values_subnormal",
                  "random_expo_values_exact_pow2", "random_expo_values_near_irrational_boundary",
